@@ -581,6 +581,40 @@ def global_writes(repo, fi):
             e = e.value
         return e.id if isinstance(e, ast.Name) else None
 
+    is_classmethod = any((dotted(d) or '') == 'classmethod' for d in fi.node.decorator_list)
+    first_param = fi.params[0] if fi.params else None
+    class_level = set()
+    instance_level = set()
+    if fi.cls is not None:
+        ci = repo.classes.get('%s:%s' % (fi.module.name, fi.cls)) if isinstance(fi.cls, str) else fi.cls
+        cnode = getattr(ci, 'node', None)
+        if cnode is not None:
+            for st in cnode.body:
+                if isinstance(st, ast.Assign):
+                    class_level |= {t.id for t in st.targets if isinstance(t, ast.Name)}
+                elif isinstance(st, ast.AnnAssign) and isinstance(st.target, ast.Name) and st.value is not None:
+                    class_level.add(st.target.id)
+            for x in ast.walk(cnode):
+                if isinstance(x, ast.Attribute) and isinstance(x.ctx, ast.Store) and isinstance(x.value, ast.Name) and x.value.id == 'self':
+                    instance_level.add(x.attr)
+
+    def through_class(e):
+        # cls.X[...] in a classmethod, or self.X[...] where X exists on the class only (never bound per instance)
+        chain = []
+        while isinstance(e, (ast.Subscript, ast.Attribute)):
+            chain.append(e)
+            e = e.value
+        if not isinstance(e, ast.Name) or not chain:
+            return None
+        root_attr = chain[-1]
+        if not isinstance(root_attr, ast.Attribute):
+            return None
+        if is_classmethod and e.id == first_param:
+            return 'class attribute %s' % root_attr.attr
+        if e.id == 'self' and root_attr.attr in class_level and root_attr.attr not in instance_level and len(chain) > 1:
+            return 'class-level attribute %s shared by all instances' % root_attr.attr
+        return None
+
     def is_shared(name):
         if name in declared_global:
             return 'module-level name (global)'
@@ -613,6 +647,9 @@ def global_writes(repo, fi):
                         why = is_shared(b)
                         if why:
                             out.append((n, 'store into %s (%s)' % (' '.join(src(tt).split()), why)))
+                    tc = through_class(tt)
+                    if tc:
+                        out.append((n, 'store into %s (%s)' % (' '.join(src(tt).split()), tc)))
                     if isinstance(tt, ast.Attribute) and isinstance(tt.value, ast.Attribute) and tt.value.attr == '__class__':
                         out.append((n, 'store into a class attribute through __class__'))
         if isinstance(n, ast.Call) and isinstance(n.func, ast.Attribute) and n.func.attr in MUTATING:
@@ -621,4 +658,7 @@ def global_writes(repo, fi):
                 why = is_shared(b)
                 if why:
                     out.append((n, 'in-place %s() on %s (%s)' % (n.func.attr, ' '.join(src(n.func.value).split()), why)))
+            tc = through_class(ast.Subscript(value=n.func.value, slice=ast.Constant(value=0), ctx=ast.Load()))
+            if tc:
+                out.append((n, 'in-place %s() on %s (%s)' % (n.func.attr, ' '.join(src(n.func.value).split()), tc)))
     return out
